@@ -39,8 +39,8 @@ REQUIRED_COUNTERS = {"boundary_faults_escaped": {"quick": 300, "thorough": 2000}
                      "arbitrary_inputs": {"quick": 40, "thorough": 40}}
 SHARD_TIMEOUT = {"quick": 400, "thorough": 5400}
 INTERPS = ["3.12", "3.11", "3.10", "3.9"]
-SCENARIOS = ["async_chain", "async_chain_exiting", "hooked_exiting", "hook_replaces", "thread", "custom", "running",
-             "greenlet"]
+SCENARIOS = ["async_chain", "async_chain_exiting", "hooked_exiting", "hook_replaces", "stack_children", "thread",
+             "custom", "running", "greenlet"]
 
 
 def plan(tier, seed):
@@ -50,7 +50,8 @@ def plan(tier, seed):
             if sc == "greenlet" and interp != "3.12":
                 continue
             shards.append({"interp": interp, "leg": "boundary", "scenario": sc, "seed": seed,
-                           "pairs": (60 if sc not in ("hooked_exiting", "hook_replaces") else 1500) if tier == "quick" else 100000,
+                           "pairs": (60 if sc not in ("hooked_exiting", "hook_replaces", "stack_children") else 1500)
+                           if tier == "quick" else 100000,
                            "budget_s": 40 if tier == "quick" else 1500})
             shards.append({"interp": interp, "leg": "lines", "scenario": sc, "seed": seed,
                            "max_k": 150 if tier == "quick" else 100000, "budget_s": 40 if tier == "quick" else 1500})
@@ -317,6 +318,29 @@ def worker(spec):
     def _replace(frame, context):
         return frame.contexts[0].obj if frame.contexts else None
 
+    class PlainCM(object):
+        def __enter__(self):
+            return self
+
+        def __exit__(self, *a):
+            return False
+
+    @contextlib.contextmanager
+    def stack_of_two():
+        # an exit stack whose first entry is generator-based (its inner stack can record a fault) and whose
+        # later entries are filled after it: a failure while filling a later entry must not take the earlier
+        # entries - and what was recorded on them - away
+        with contextlib.ExitStack() as st:
+            st.enter_context(inner_cm())
+            st.enter_context(PlainCM())
+            st.enter_context(replaced_cm())
+            st.enter_context(PlainCM())
+            yield
+
+    async def lvl_stack_children():
+        with stack_of_two():
+            await sus(3)
+
     async def lvl_hooked_exit():
         with inner_cm():
             async with hooked_exiting_acm():
@@ -394,6 +418,10 @@ def worker(spec):
             return (lambda: stackscope.extract(co)), co.close
         if name == "hooked_exiting":
             co = lvl_hooked_exit()
+            co.send(None)
+            return (lambda: stackscope.extract(co)), co.close
+        if name == "stack_children":
+            co = lvl_stack_children()
             co.send(None)
             return (lambda: stackscope.extract(co)), co.close
         if name == "hook_replaces":
